@@ -300,6 +300,8 @@ func extractConditions(condJSON *simplejson.Json) (pipeline.MatchConditions, err
 			conditions = append(conditions, condition)
 			continue
 		}
+
+		return nil, fmt.Errorf("can't parse match_fields value %v of field %q: want a string or a list of strings", obj, field)
 	}
 
 	return conditions, nil
